@@ -2443,7 +2443,10 @@ impl<'input, T: Input> Scanner<'input, T> {
 
         // Skip over ':'.
         self.skip_non_blank();
-        if self.input.look_ch() == '\t'
+        // In a block mapping, a tab may not separate the `:` from a nested block collection. In
+        // a flow collection any blank separates (JSON texts are often tab-indented).
+        if self.flow_level == 0
+            && self.input.look_ch() == '\t'
             && !self.skip_ws_to_eol(SkipTabs::Yes)?.has_valid_yaml_ws()
             && (self.input.peek() == '-' || self.input.next_is_alpha())
         {
